@@ -405,8 +405,12 @@ def run(prop, tier, seed):
         "assumptions": list(getattr(module, "ASSUMPTIONS", [])),
         "wall_s": round(time.time() - t0, 2), "violations": nviol,
     }
-    os.makedirs(os.path.join(HERE, "evidence"), exist_ok=True)
-    with open(os.path.join(HERE, "evidence", prop + ".json"), "w") as fh:
+    # evidence/ describes runs against /repo itself; runs against another tree (VERIF_REPO: seeded changes, the pinned
+    # snapshot) write theirs next to the replays so that they cannot be mistaken for it
+    from . import repo as _repo
+    evdir = os.path.join(HERE, "evidence") if _repo.REPO == "/repo" else os.path.join(HERE, "replays", "_evidence_other_tree")
+    os.makedirs(evdir, exist_ok=True)
+    with open(os.path.join(evdir, prop + ".json"), "w") as fh:
         json.dump(evidence, fh, indent=1, sort_keys=True)
         fh.write("\n")
 
